@@ -88,6 +88,11 @@ pub fn check(c: &Case, cs: &mut CaseStats) -> Result<(), String> {
         let diff = (tot - boxm).abs();
         cs.max("tile_diff_over_tol", diff / tol_sum);
         cs.max("tile_rel_diff", diff / boxm);
+        if let Ok(t) = std::env::var("MVV_C02_STRICT") {
+            if diff / boxm > t.parse::<f64>().unwrap_or(1e-6) {
+                return Err(format!("STRICT {name}: rel diff {:e} tol_sum/box {:e}", diff / boxm, tol_sum / boxm));
+            }
+        }
         if diff > tol_sum {
             return Err(format!("{name}: measures sum to {tot:e}, box measure is {boxm:e} (diff {diff:e} > tol {tol_sum:e}, kappa_max {kmax:e})"));
         }
